@@ -379,6 +379,10 @@ def make_jobs(tier, seed, build):
         for seq in itertools.product(units, repeat=k):
             if not any(u[0] == "user" for u in seq):
                 continue
+            # Escape::Spaces is only used by Roff::control for the arguments of a control line: such a
+            # fragment always follows the literal separator `" "` on the same line
+            if any(u == ("user", "Spaces") and (i == 0 or seq[i - 1] != ("own", 2)) for i, u in enumerate(seq)):
+                continue
             if k == maxlen and sum(1 for u in seq if u[0] == "user") > 2:
                 continue
             for ul in ((1,), (2,)) if tier == "quick" else ((1,), (2,), (3,)):
@@ -464,7 +468,7 @@ def finish(results, jobs, build, out, tier, seed, wall):
     }
     assumptions = [
         "provenance in the roff kernel is exact because inserted bytes are concrete and user bytes stay symbolic on every path",
-        "user text may only be pushed with Special / SpecialNoNewline / Spaces (that is what Roff::plaintext / control do); bpaf's own fragments are the literals used in roff.rs",
+        "user text may only be pushed with Special / SpecialNoNewline / Spaces (that is what Roff::plaintext / control do); a Spaces fragment always follows the literal argument separator (Roff::control); bpaf's own fragments are the literals used in roff.rs",
         "HTML: user bytes are rendered as text; the tag structure is read from the concrete part of the output",
         "markdown output, whole-document assembly and the item lists per section are not part of this check",
     ]
